@@ -1001,7 +1001,7 @@ class ModelFeatures:
     def _extract_peripherals(self):
         peripheral_dict = {"MET": set(), "DRUG": set()}
         for p in self.peripherals:
-            for m in p.modes:
+            for m in p.eval.modes:
                 peripheral_dict[m.name] = peripheral_dict[m.name].union(set(p.counts))
 
         return peripheral_dict
